@@ -210,4 +210,15 @@ void vf_native_note(const char * msg);
 #define VF_ASSUME(c)       do { if (!(c)) { printf("NATIVE-PRECONDITION-NOT-MET: %s\n", #c); exit(3); } } while (0)
 #endif
 
+/* Comparison results for the bounded harnesses: only the SIGN of a comparison is specified, so
+ * the magnitude follows a fixed pattern over the calls (1s, where two results tie, and larger
+ * values); a subtracting comparator would hide code that relies on magnitudes (seeded change C07-2). */
+static inline int vf_signmag(int gt, int lt)
+{
+    static const int mag[4] = { 2, 1, 1, 3 };
+    static unsigned calls;
+    const int m = mag[calls++ % 4];
+    return gt ? m : (lt ? -m : 0);
+}
+
 #endif
